@@ -4,7 +4,6 @@ use super::context::{Config, Error, ValidationState};
 use super::group::ValidatedGroup;
 use super::nsec::{Nsec3Cache, Nsec3NXStateNoCE, NsecNXState};
 use super::nsec::{nsec_for_not_exists, nsec3_for_not_exists_no_ce};
-use crate::base::cmp::CanonicalOrd;
 use crate::base::iana::{Class, ExtendedErrorCode};
 use crate::base::name::Label;
 use crate::base::opt::ExtendedError;
@@ -191,7 +190,7 @@ pub fn ttl_for_sig(
     #[cfg(feature = "verif-hooks")]
     let now = super::verif_clock::shift_timestamp(now);
     let expiration = sig.data().expiration();
-    let until_expired = if now.canonical_gt(&expiration) {
+    let until_expired = if now > expiration {
         0
     } else {
         expiration.into_int().wrapping_sub(now.into_int())
